@@ -1,11 +1,20 @@
 import PV.Lemmas.SocketCalls
 import PV.Lemmas.SocketGetters
 import PV.Lemmas.SocketFd
+import PV.Lemmas.SocketAdopt
 /-!
 # C10 — Socket modes and lifecycle
 
 Theorems about the model `PV.Model.Socket` of `psocket.c`; every statement is for all scripts of
 native results (and, where sequences are involved, all call sequences).
+
+§1 closed_is_dead / close_idempotent · §3 timeout_semantics / nonblocking_never_waits · §2 getters_reflect ·
+§4 cloexec · §5 fd_closed_once · §6 failure paths reached by the directed cases of the coverage audit
+(`refused_address_connect / _send_to / _bind`: an address object `p_socket_address_to_native` rejects;
+`new_from_fd_null_iff_error`, `new_from_fd_keeps_descriptor`: the error returns of adoption; `adopted_identity`:
+family / protocol / connected of an adopted socket, incl. families the library does not know) ·
+§7 `p_socket_shutdown` reads its `pboolean`s with `== TRUE` (`shutdown_args_partial`, `…_write_only`,
+`…_noncanonical_witness`: the full "non-zero means TRUE" statement is false of the code).
 -/
 set_option linter.unusedSimpArgs false
 namespace PV.Socket
@@ -412,5 +421,148 @@ example :
        ++ newFromFdAnswers ++ [{ sys := .close, ret := .ok 0 }, { sys := .close, ret := .ok 0 }]) 0).toOption.map
       (fun x => (x.2.map (·.call) |>.filter (fun c => c.sys == .close), fdTable x.2 [])) =
     some ([.close 7, .close 8], some []) := by decide
+
+/-! ## 6. failure paths: a refused address object, a failing adoption
+
+(the branches of `p_socket_bind / connect / send_to` after `p_socket_address_to_native` answered FALSE, and the
+error returns of `p_socket_new_from_fd`; the differential runs reach them through `bad:<hex>` addresses and the
+directed adoption cases of `tools/props/sockets.py`) -/
+
+def convFailed : PErr := { code := P_ERROR_IO_FAILED, native := 0, msg := "Failed to convert socket address to native structure" }
+
+/-- `p_socket_connect` with an address object that `p_socket_address_to_native` rejects: FALSE / FAILED, **no** native
+    call (in particular no `connect` with an uninitialised `sockaddr_storage`), nothing consumed, and the object — its
+    `connected` flag included — is exactly as before; in every mode, whatever the script -/
+theorem refused_address_connect (s : Sock) (hc : s.closed = false) (script : Script) (e : Int) :
+    call s (.connect .bad) script e = .ok { sock := s, out := failOut 0 convFailed, tr := [], rest := script, errno := e } := by
+  simp [call, callM, connect, check, hc, convFailed, M.bind, M.pure, pure]
+
+/-- … `p_socket_send_to`: −1 / FAILED, no wait, no `sendto` -/
+theorem refused_address_send_to (s : Sock) (hc : s.closed = false) (b : Bytes) (n : Nat) (script : Script) (e : Int) :
+    call s (.sendTo .bad (some b) n) script e =
+      .ok { sock := s, out := failOut (-1) convFailed, tr := [], rest := script, errno := e } := by
+  simp [call, callM, sendTo, check, hc, convFailed, M.bind, M.pure, pure]
+
+/-- … `p_socket_bind`: the two best-effort `setsockopt` calls are made (their results are ignored), then FALSE / FAILED
+    and **no** `bind`; the object is unchanged -/
+theorem refused_address_bind (s : Sock) (hc : s.closed = false) (reuse : Bool) (script : Script) (e : Int) (r : CallResult)
+    (h : call s (.bind .bad reuse) script e = .ok r) :
+    r.sock = s ∧ r.out = failOut 0 convFailed ∧
+    r.tr.map (·.call) = [.setsockopt s.fd SOL_SOCKET SO_REUSEADDR (b2i reuse) 4,
+                         .setsockopt s.fd SOL_SOCKET SO_REUSEPORT (b2i (reuse && s.type = P_SOCKET_TYPE_DATAGRAM)) 4] := by
+  cases script with
+  | nil => simp [call, callM, bind, check, hc, sys, M.bind] at h
+  | cons a t =>
+    by_cases hs : a.sys = Sys.setsockopt
+    · cases t with
+      | nil => simp [call, callM, bind, check, hc, sys, M.bind, hs, Issued.sys] at h
+      | cons a2 t2 =>
+        by_cases hs2 : a2.sys = Sys.setsockopt
+        · simp [call, callM, bind, check, hc, sys, M.bind, hs, hs2, Issued.sys, M.pure, pure] at h
+          subst h; simp [convFailed]
+        · simp [call, callM, bind, check, hc, sys, M.bind, hs, hs2, Issued.sys] at h
+    · simp [call, callM, bind, check, hc, sys, M.bind, hs, Issued.sys] at h
+
+/-- non-vacuity: a connected blocking socket, refused address: nothing is issued although the script offers a `connect` answer -/
+example : call demoSockC10 (.connect .bad) [{ sys := .connect, ret := .ok 0 }] =
+    .ok { sock := demoSockC10, out := failOut 0 convFailed, tr := [], rest := [{ sys := .connect, ret := .ok 0 }], errno := 0 } :=
+  refused_address_connect demoSockC10 rfl _ _
+example : (call demoSockC10 (.bind .bad true) [{ sys := .setsockopt, ret := .ok 0 }, { sys := .setsockopt, ret := .err EBADF }, { sys := .bind, ret := .ok 0 }]).toOption.map
+    (fun r => (r.out.ret, r.tr.length, r.rest.length)) = some (0, 2, 1) := by decide
+
+/-- `p_socket_new_from_fd` returns NULL **exactly when** it reports an error, on every script: each error return of
+    `pp_socket_set_details_from_fd` (SO_TYPE failing or answering with an option length other than `sizeof (int)`,
+    `getsockname` failing, the SO_DOMAIN query failing) and of `pp_socket_set_fd_blocking` (F_SETFL failing) and the bad
+    descriptor give NULL + error; the success return gives an object and no error -/
+theorem new_from_fd_null_iff_error (fd : Int) (script : Script) (e : Int) (so : Option Sock) (err : Option PErr) (st : St) (evs : List Ev)
+    (h : runM (newFromFd fd) script e = .ok ((so, err), st, evs)) : so = none ↔ err.isSome = true := by
+  unfold runM at h
+  cases hm : newFromFd fd { script := script, errno := e } with
+  | stop w => simp [hm] at h
+  | ok a st' evs' =>
+    simp [hm] at h
+    obtain ⟨rfl, _, _⟩ := h
+    exact (newFromFd_null_iff_error fd).elim hm
+
+/-- … and it never passes the caller's descriptor to `close()` (nor obtains one): a failed adoption leaves the descriptor
+    with the caller; inside `p_socket_accept` the library closes it itself (`fd_closed_once`) -/
+theorem new_from_fd_keeps_descriptor (fd : Int) (script : Script) (e : Int) (x : Option Sock × Option PErr) (st : St) (evs : List Ev)
+    (h : runM (newFromFd fd) script e = .ok (x, st, evs)) : ∀ ev ∈ evs, ev.call.sys ≠ .close ∧ ev.call.sys ≠ .socket ∧ ev.call.sys ≠ .accept := by
+  unfold runM at h
+  cases hm : newFromFd fd { script := script, errno := e } with
+  | stop w => simp [hm] at h
+  | ok a st' evs' =>
+    simp [hm] at h
+    obtain ⟨_, _, rfl⟩ := h
+    have key : TrAll (fun ev => ev.call.sys ≠ .close ∧ ev.call.sys ≠ .socket ∧ ev.call.sys ≠ .accept) (newFromFd fd) := by
+      unfold newFromFd setDetailsFromFd setFdBlocking
+      tr_all (simp [Issued.sys])
+    exact key.elim hm
+
+/-- the identity getters (family / type / protocol) and `connected` of an adopted socket, on every script: the family is
+    INET, INET6 or UNKNOWN (whatever 16-bit value `getsockname` wrote); for a family the library does not know the
+    protocol stays UNKNOWN-as-allocated (0), no `getpeername` result is taken and the object is **not connected**; for
+    INET / INET6 the protocol is the one of the native type: STREAM → TCP, DATAGRAM → UDP, SEQPACKET → SCTP, other → 0 -/
+theorem adopted_identity (fd : Int) (script : Script) (e : Int) (ns : Sock) (err : Option PErr) (st : St) (evs : List Ev)
+    (h : runM (newFromFd fd) script e = .ok ((some ns, err), st, evs)) :
+    (ns.family = AF_INET ∨ ns.family = AF_INET6 ∨ ns.family = 0) ∧
+    (ns.family = 0 → ns.protocol = 0 ∧ ns.connected = false) ∧
+    (ns.family ≠ 0 → ns.protocol = protoOfType ns.type 0) := by
+  unfold runM at h
+  cases hm : newFromFd fd { script := script, errno := e } with
+  | stop w => simp [hm] at h
+  | ok a st' evs' =>
+    simp [hm] at h
+    obtain ⟨ha, _, _⟩ := h
+    have := (newFromFd_identity fd).elim hm ns (by rw [ha])
+    exact this
+
+/-- non-vacuity: a SEQPACKET socket of family INET is adopted with protocol SCTP; an AF_UNIX descriptor with family
+    UNKNOWN, protocol 0, not connected, and no `getpeername` among its four native calls before the fcntl pair -/
+example : (runM (newFromFd 6) [{ sys := .getsockopt, ret := .ok 0, val := SOCK_SEQPACKET }, { sys := .getsockname, ret := .ok 0, sa := [2, 0, 0, 80, 127, 0, 0, 1] },
+      { sys := .getpeername, ret := .ok 0 }, { sys := .getsockopt, ret := .ok 0, val := 0 }, { sys := .fcntl, ret := .ok 2 }, { sys := .fcntl, ret := .ok 0 }] 0).toOption.map
+    (fun x => x.1.1.map (fun ns => (ns.family, ns.type, ns.protocol, ns.connected))) = some (some (AF_INET, P_SOCKET_TYPE_SEQPACKET, P_SOCKET_PROTOCOL_SCTP, true)) := by decide
+example : (runM (newFromFd 6) [{ sys := .getsockopt, ret := .ok 0, val := SOCK_STREAM }, { sys := .getsockname, ret := .ok 0, sa := [1, 0, 47, 120, 0] },
+      { sys := .getsockopt, ret := .ok 0, val := 1 }, { sys := .fcntl, ret := .ok 2 }, { sys := .fcntl, ret := .ok 0 }] 0).toOption.map
+    (fun x => (x.1.1.map (fun ns => (ns.family, ns.protocol, ns.connected, ns.keepalive)), x.2.2.map (·.call.sys))) =
+    some (some (0, 0, false, true), [.getsockopt, .getsockname, .getsockopt, .fcntl, .fcntl]) := by decide
+
+/-- non-vacuity: SO_TYPE answers with option length 2 → NULL, INVALID_ARGUMENT, one native call; and a full success -/
+example : (runM (newFromFd 6) [{ sys := .getsockopt, ret := .ok 0, val := 1, len := 2 }] 0).toOption.map
+    (fun x => (x.1.1.isSome, x.1.2.map (·.code), x.2.2.length)) = some (false, some P_ERROR_IO_INVALID_ARGUMENT, 1) := by decide
+example : (runM (newFromFd 6) newFromFdAnswers 0).toOption.map (fun x => (x.1.1.map (·.fd), x.1.2.isSome)) = some (some 6, false) := by decide
+
+/-! ## 7. `p_socket_shutdown`: how the two `pboolean` arguments are read
+
+Full statement — "every non-zero value means TRUE": `∀ rd wr, shutdownArgs rd wr = Spec.shutdownArgs rd wr` — is
+**false of the code**: the function compares with `== TRUE`, so `p_socket_shutdown (s, 2, FALSE)` shuts the WRITE
+direction down and `(2, 2)` shuts only WRITE down and leaves `connected` set (witness below; replay
+`coverage/sockets-shutdown-pboolean.replay`).  Proved: the statement for the canonical values 0 / 1, and for any
+non-zero write flag when the read flag is 0. -/
+
+theorem shutdown_args_partial (rd wr : Int) (hr : rd = 0 ∨ rd = 1) (hw : wr = 0 ∨ wr = 1) :
+    shutdownArgs rd wr = Spec.shutdownArgs rd wr := by
+  rcases hr with rfl | rfl <;> rcases hw with rfl | rfl <;> decide
+
+theorem shutdown_args_write_only (wr : Int) (h : wr ≠ 0) : shutdownArgs 0 wr = Spec.shutdownArgs 0 wr := by
+  have h1 : ¬ ((0 : Int) = 0 ∧ wr = 0) := fun x => h x.2
+  simp [shutdownArgs, Spec.shutdownArgs, h]
+
+/-- the negation of the full statement on concrete arguments: the direction shut down is not the one asked for -/
+theorem shutdown_args_noncanonical_witness :
+    shutdownArgs 2 0 = (false, true) ∧ Spec.shutdownArgs 2 0 = (true, false) ∧
+    shutdownArgs 2 2 = (false, true) ∧ Spec.shutdownArgs 2 2 = (true, true) ∧
+    shutdownArgs 1 2 = (true, false) ∧ Spec.shutdownArgs 1 2 = (true, true) := by decide
+
+/-- … and what that does to a connected socket: `(2, 2)` issues `shutdown (fd, SHUT_WR)` and `connected` stays set,
+    where the call as meant issues SHUT_RDWR and clears it -/
+example :
+    ((call demoSockC10 (.shutdown (shutdownArgs 2 2).1 (shutdownArgs 2 2).2) [{ sys := .shutdown, ret := .ok 0 }]).toOption.map
+      (fun r => (r.tr.map (·.call), r.sock.connected)),
+     (call demoSockC10 (.shutdown (Spec.shutdownArgs 2 2).1 (Spec.shutdownArgs 2 2).2) [{ sys := .shutdown, ret := .ok 0 }]).toOption.map
+      (fun r => (r.tr.map (·.call), r.sock.connected))) =
+    (some ([.shutdown 5 SHUT_WR], true), some ([.shutdown 5 SHUT_RDWR], false)) := by decide
+
+example : shutdownArgs 1 0 = (true, false) ∧ shutdownArgs 0 (-7) = (false, true) ∧ shutdownArgs 0 0 = (false, false) := by decide
 
 end PV.Socket
